@@ -110,6 +110,8 @@ func (h *ReaderSrv) ReadPat(ctx context.Context, r io.Reader, call int, pattern 
 
 type ReaderCli struct {
 	ReadPat func(ctx context.Context, r io.Reader, call int, pattern int) (string, error)
+	// the same method through a retry-tagged function
+	ReadPatRetry func(ctx context.Context, r io.Reader, call int, pattern int) (string, error) `retry:"true" rpc_method:"T.ReadPat"`
 }
 
 // S-READER (DESIGN §3 C20).
@@ -160,6 +162,14 @@ func init() {
 				ps = append(ps, Param{Name: "n1-pat0-len1048577", Bound: 0, V: map[string]int{"n": 1, "pat": 0, "len": 1<<20 + 1}})
 				ps = append(ps, Param{Name: "n1-pat2-len1048577", Bound: 0, V: map[string]int{"n": 1, "pat": 2, "len": 1<<20 + 1}})
 			}
+			// the push address is given with a trailing slash
+			ps = append(ps, Param{Name: "n1-pat0-len4097-slash", Bound: 0, V: map[string]int{"n": 1, "pat": 0, "len": 4097, "slash": 1}})
+			ps = append(ps, Param{Name: "n1-pat2-len1-slash", Bound: b2 - 1, V: map[string]int{"n": 1, "pat": 2, "len": 1, "slash": 1}})
+			// a retry-tagged call whose first request frame is lost with the connection: the retry
+			// after the reconnect must still be matched with the (one) upload of the caller's bytes
+			for _, wh := range []vnet.Where{vnet.Before, vnet.MidPayload} {
+				ps = append(ps, Param{Name: fmt.Sprintf("n1-pat0-len4097-retry-%s", wh), Bound: b2 - 1, V: map[string]int{"n": 1, "pat": 0, "len": 4097, "retry": 1, "where": int(wh)}})
+			}
 			ps = append(ps, Param{Name: "n2-pat0-len4097", Bound: b2, V: map[string]int{"n": 2, "pat": 0, "len": 4097}})
 			ps = append(ps, Param{Name: "n2-pat2-len1", Bound: b2, V: map[string]int{"n": 2, "pat": 2, "len": 1}})
 			return ps
@@ -178,8 +188,16 @@ func readerBody(s *vsched.Sched, p Param) {
 	w.Mux.Handle("/push/", pushHnd)
 	w.Serve()
 	var cli ReaderCli
-	_, err := w.WS("T", &cli, jsonrpc.WithPingInterval(0), jsonrpc.WithTimeout(0), jsonrpc.WithNoReconnect(),
-		httpio.ReaderParamEncoder("http://"+Addr+"/push"))
+	push := "http://" + Addr + "/push"
+	if p.I("slash") == 1 {
+		push += "/"
+	}
+	rcOpt := jsonrpc.WithNoReconnect()
+	if p.I("retry") == 1 {
+		rcOpt = jsonrpc.WithReconnectBackoff(10*time.Millisecond, 40*time.Millisecond)
+		w.Net.ArmFrame(0, vnet.FrameCut{Kind: vnet.FIN, Dir: vnet.C2S, Frame: 0, Where: vnet.Where(p.I("where"))})
+	}
+	_, err := w.WS("T", &cli, jsonrpc.WithPingInterval(0), jsonrpc.WithTimeout(0), rcOpt, httpio.ReaderParamEncoder(push))
 	if err != nil {
 		s.Violate("HARNESS: setup: %v", err)
 		return
@@ -227,6 +245,9 @@ func readerBody(s *vsched.Sched, p Param) {
 			for li := 1; li < w.Net.LinkCount(); li++ {
 				// uploads may share a keep-alive connection: count the responses on each link
 				resp := string(w.Net.Link(li).Wire(vnet.S2C))
+				if strings.HasPrefix(resp, "HTTP/1.1 101") {
+					continue // the WebSocket connection made by the reconnect
+				}
 				ups += strings.Count(resp, "HTTP/1.1 200")
 				if k := strings.Count(resp, "HTTP/1.1 "); k != strings.Count(resp, "HTTP/1.1 200") {
 					s.Violate("C20: an upload request got a non-200 reply: %.60q", resp)
@@ -243,7 +264,11 @@ func readerBody(s *vsched.Sched, p Param) {
 	for c := 0; c < n; c++ {
 		c := c
 		s.Go(fmt.Sprintf("caller-%d", c), func() {
-			v, err := cli.ReadPat(context.Background(), bytes.NewReader(makePayload(c, ln)), c, pat)
+			call := cli.ReadPat
+			if p.I("retry") == 1 {
+				call = cli.ReadPatRetry
+			}
+			v, err := call(context.Background(), bytes.NewReader(makePayload(c, ln)), c, pat)
 			if err != nil {
 				obs.Set(fmt.Sprintf("ret-%d", c), "ERR:%s", shortErr(err))
 				if strings.Contains(err.Error(), "panic") {
